@@ -31,7 +31,7 @@ FUNCTIONS = ['TransposeOperator.mv (jax.linear_transpose traced)', 'CompositionO
 BOUNDS = {'quick': 'every catalogue leaf of 4 structure families, leaf.T/.I(closed form), seeded products/sums/blocks/rule chains '
                    '(same grammar as C01, depth <= 2), einsum subscripts of the catalogue, 3x3 CSR observation-matrix fixture with symbolic entries',
           'thorough': 'same grammar as C01 thorough'}
-STUBS = ['transposes of the iterative (lazy) inverse are skipped: the contract stub has no transpose rule']
+STUBS = ['lineax.linear_solve -> contract stub built on lax.custom_linear_solve, so that its transpose is the contract A^T z = y; the real solver is additionally run once per program with a lazy inverse']
 ASSUMPTIONS = ['real arithmetic', 'inner product = harness-own leaf-wise sum of products (real data)',
                'scalars that are inverted are != 0']
 RULE = ('program = expression tree over catalogue leaves; non-trivial = program has symbolic atoms and its transpose is '
@@ -168,6 +168,16 @@ def run_case(key, twin=False):
     x, y = E.symbols('x', xin), E.symbols('y', yout)
     dec = Decider()
     assume = bld.assumptions(e)
+    from ..catalogue import has_tag
+    if has_tag(e, ('I', 'lazyI')) and not twin:
+        # the contract stub hides the real solver: the transposed operator must also be applicable with the real one
+        with real_solver():
+            try:
+                yy = jax.tree.map(lambda l: jnp.ones(l.shape, l.dtype), yout)
+                build_concrete(fam, e).T.mv(yy)
+            except Exception as ex:  # noqa: BLE001
+                return violation(f'A.T.mv raises {type(ex).__name__}: {str(ex)[:120]} with the real solver for {show(e)}',
+                                 signature=f'T-mv-raises:{type(ex).__name__}', kind='T-mv-raises')
     try:
         lhs, rhs = inner(Ax, y), inner(x, ATy)
     except AssertionError:
@@ -197,6 +207,13 @@ def replay(key, model, info):
     fam, e = key
     e = c01._tuplify(e)
     with real_solver():
+        if kind == 'T-mv-raises':
+            op0 = build_concrete(fam, e)
+            try:
+                op0.T.mv(jax.tree.map(lambda l: jnp.ones(l.shape, l.dtype), op0.out_structure()))
+            except Exception as ex:  # noqa: BLE001
+                return True, f'A.T.mv raises {type(ex).__name__}: {str(ex)[:150]}'
+            return False, 'A.T.mv works'
         if kind == 'raises':
             try:
                 build_concrete(fam, e).T
